@@ -27,6 +27,7 @@ type Opts struct {
 	ScalarParams bool // main parameters are integer scalars only (no bool)
 	Param0       *Type  // fixed type of main's first parameter
 	StructParams bool   // main parameters may be of the program's struct type
+	PlainDiv     bool   // divisors without the `| 1` guard (callers skip zero-divisor inputs)
 	PoolTypes    []Type // types added to the program's type pool
 }
 
@@ -367,6 +368,12 @@ func (g *gctx) intExpr(T Type, depth int, needDyn bool) (*Expr, bool) {
 		if op == "/" || op == "%" {
 			l, _ := g.intExpr(T, depth-1, false)
 			r, _ := g.intExpr(T, depth-1, true)
+			if g.o.PlainDiv && g.chance(50, "plaindiv") {
+				// Divisor as it is: input vectors on which it
+				// is zero are skipped by the checks (division
+				// by zero has no defined meaning).
+				return &Expr{Op: EBin, T: T, Name: op, A: []*Expr{l, r}}, true
+			}
 			one := &Expr{Op: ELit, T: T, Val: "1"}
 			div := &Expr{Op: EBin, T: T, Name: "|", A: []*Expr{r, one}}
 			return &Expr{Op: EBin, T: T, Name: op, A: []*Expr{l, div}}, true
@@ -1227,7 +1234,7 @@ func Draw(t *rapid.T, o Opts) *Prog {
 		var w int
 		switch {
 		case o.MulHeavy:
-			w = g.intn(8, 45, "width")
+			w = g.intn(8, min(45, max(8, o.MaxWidth)), "width")
 		case g.chance(60, "tablewidth"):
 			w = widthTable[g.intn(0, len(widthTable)-1, "width")]
 		default:
@@ -1308,8 +1315,8 @@ func Draw(t *rapid.T, o Opts) *Prog {
 	}
 	for i := 0; i < npar; i++ {
 		T := g.pickType("paramtype")
-		if i > 0 && o.ArrayParams && g.chance(20, "arrayparam") {
-			T = Array(g.intn(1, 4, "paramarrlen"), g.pickType("paramelem"))
+		if i > 0 && o.ArrayParams && g.chance(30, "arrayparam") {
+			T = Array(g.intn(1, 5, "paramarrlen"), g.pickType("paramelem"))
 		} else if i > 0 && !o.ScalarParams && g.chance(10, "boolparam") {
 			T = Bool()
 		}
